@@ -11,6 +11,7 @@ CONSTANTS
   Shuts = {"ready", "never"}
   Graces = {FALSE, TRUE}
   Errs = {FALSE, TRUE}
+  Budgets = {99}
   HalfClosed = FALSE
   MaxT = 8000
   KnownSigs = {"C03/Resp/after-final/close-response", "C03/Call/after-final/close-response"}
